@@ -29,10 +29,10 @@ SHARDS = {"quick": 4, "thorough": 16}
 
 # R8: MonteCarloSampler_jit.transitions uses np.Inf, which NumPy 2 removed -> every call raises AttributeError at compile time.
 # While the flag is set that one failure of that one call is counted and the rest of the history is still exercised.
-EXCLUDE_R8 = True
+EXCLUDE_R8 = False  # repaired in /repo (f14ce55)
 # compiled sampler cannot be constructed when the reference sampler has a jump network but zero jumps (vacancy on a site without jumps):
 # MonteCarloSampler_param builds 1-D float arrays for jump_ij/jump_dx.  While the flag is set such setups use the sampler without jump network.
-EXCLUDE_ZEROJUMPS = True
+EXCLUDE_ZEROJUMPS = False  # R26 repaired in /repo (9e723a9)
 _r8_seen = []
 
 
